@@ -155,4 +155,44 @@ def register(g):
         write('Shutdown.lean', 'import RjModel.Model.Shutdown\nnamespace Rj.Generated\n' +
               f'def shutdownFeatures : ShutFeatures := ⟨{b(local)}, {b(remote)}, {b(nb)}⟩\nend Rj.Generated\n')
 
-    return {'defaults': defaults, 'skeletons': skeletons, 'sites': sites, 'shutdown': shutdown}
+    def panic_sites():
+        import re as _re, json as _json, collections, os as _os
+        files = ['boss_deploy', 'boss_doer_interface', 'boss_frontend', 'boss_launch', 'boss_progress', 'boss_sync', 'doer', 'encrypted_comms', 'exe_utils',
+                 'histogram', 'logger_and_progress', 'main', 'memory_bound_channel', 'ordered_map', 'parallel_walk_dir', 'root_relative_path', 'embedded_binaries']
+        KINDS = [('unwrap', r'\.unwrap\(\)'), ('expect', r'\.expect\('), ('panic', r'\bpanic!\('), ('assert', r'\bassert(?:_eq|_ne)?!\('),
+                 ('debug_assert', r'\bdebug_assert(?:_eq|_ne)?!\('), ('unreachable', r'\b(?:unreachable|unimplemented|todo)!\(')]
+        inv = collections.Counter()
+        for f in files:
+            try:
+                src = strip_comments(read(f'src/{f}.rs'))
+            except FileNotFoundError:
+                status['panic-sites:' + f] = 'file missing'; continue
+            i = src.find('#[cfg(test)]')
+            if i >= 0: src = src[:i]
+            fns = [(m.start(), m.group(1)) for m in _re.finditer(r'\bfn\s+(\w+)', src)]
+            for kind, pat in KINDS:
+                for m in _re.finditer(pat, src):
+                    fn = [n for p_, n in fns if p_ < m.start()]
+                    inv[(f, fn[-1] if fn else '', kind)] += 1
+        table = {(g[0], g[1], g[2]): g[3] for g in _json.load(open(_os.path.join(g_['V'], 'panic_sites.json')))['groups']}
+        rows, bad = [], []
+        for k, v in sorted(inv.items()):
+            ok = table.get(k) == v
+            rows.append((k, v, ok))
+            if not ok:
+                bad.append(f'{k[0]}.rs fn {k[1]} {k[2]} x{v} (table: {table.get(k)})')
+        if bad:
+            status['panic-sites'] = 'unclassified or changed: ' + '; '.join(bad[:8])
+        # the pre-epoch guard where entry details are read
+        doer = strip_comments(read('src/doer.rs'))
+        ed = fn_body(doer, 'entry_details_from_metadata') or ''
+        pre = _re.search(r'if\s+modified_time\s*<\s*(?:std::time::)?(?:SystemTime::)?UNIX_EPOCH\s*\{\s*return\s+Err', ed) is not None
+        if not pre: status['pre-epoch-guard'] = 'not recognised'
+        lines = ['namespace Rj.Generated', 'structure PanicGroup where', '  file : String', '  fn : String', '  kind : String', '  count : Nat', '  classified : Bool', '  deriving DecidableEq, Repr',
+                 'def panicGroups : List PanicGroup := [',
+                 ',\n'.join(f'  ⟨{lean_str(k[0])}, {lean_str(k[1])}, {lean_str(k[2])}, {v}, {"true" if ok else "false"}⟩' for k, v, ok in rows), ']',
+                 f'def preEpochRejected : Bool := {"true" if pre else "false"}', 'end Rj.Generated']
+        write('PanicSites.lean', '\n'.join(lines) + '\n')
+
+    g_ = g
+    return {'defaults': defaults, 'skeletons': skeletons, 'sites': sites, 'shutdown': shutdown, 'panic_sites': panic_sites}
